@@ -155,7 +155,7 @@ def oracle(case, rec):
         t_end = su["t0"] + su["horizon"]
         targ = np.linspace(su["t0"], t_end, case["grid_n"]) if case["grid_n"] else t_end
         rec.label("mode:" + ("exact" if exact else "tau"), "t:" + ("grid" if case["grid_n"] else "scalar"))
-        box = stoch.limit_steps(model, 600000 if exact else 60000)
+        box = stoch.limit_steps(model, 100000 if exact else 8000)
 
         def run(seed):
             np.random.seed(seed)
@@ -164,6 +164,8 @@ def oracle(case, rec):
         try:
             r1, r1b, r2 = run(s1), run(s1), run(s2)
         except stoch.StepBudget:
+            rec.label("step-budget:%s pre_tau=%r clock=%r rndmag=%s large=%s" % ("exact" if exact else "tau", case.get("pre_tau"), su.get("clock"),
+                                                                             bool(case.get("random_magnitude")), bool(case.get("large"))))
             raise Inconclusive("step budget")
         for name, a, b in zip(("states", "counts", "times"), r1, r1b):
             if case["grid_n"] and name == "times":
